@@ -56,6 +56,18 @@ CHECKS = {
          "without parsing; each is delivered to the real callback on a fresh writer and after a prior report; all sequences of <=3 (quick) / <=4 (thorough) reports from a 12-report basis are checked against a model.",
          "Trusted: the report generators' reading of the four families; value list; the callback is taken from the printcore object the writer creates.",
          "DESIGN.md §5 C18"),
+ "C08": ("E3", "exploration",
+         "exhaustive enumeration of numeric carriers x numbers x formatter configurations on the real builder; independent strict block grammar + exact rational comparison",
+         "Every numeric code path of the builder is called with every number of a list built around the formatter's shortcuts (zero, ties, subnormals, 1e-7, 1e15, numpy scalars, bool) and "
+         "with non-finite values, under every listed formatter configuration; output must be terminated lines of plain-decimal words plus at most one comment, each number within half a unit (+2 ulp).",
+         "Trusted: my block grammar; the number list (values outside it are not covered); 2-ulp allowance for the double's own representation error.",
+         "DESIGN.md §5 C08"),
+ "C09": ("E3", "exploration",
+         "exhaustive enumeration of a bounded string grammar x comment styles x text-accepting entry points on the real builder; independent comment stripper",
+         "Every string of up to 2-4 tokens (line breaks, CR, every delimiter and its fragments, G-code payloads, non-ASCII, format specifiers) is passed to every API entry point that accepts text under every "
+         "comment style; after stripping comments with an independent lexer the executable words and line count must equal those of the same call with an innocuous text.",
+         "Trusted: lexer's notion of block end (CR LF/LF/CR) and of where a delimited comment ends (first closing delimiter); token alphabet.",
+         "DESIGN.md §5 C09"),
  "C13": ("E1", "model_checking",
          "explicit-state BFS over transformer histories with an independent pure-python 4x4 matrix model stepped in lock-step",
          "All histories of transform/state/context operations up to the depth bound are executed on the real CoordinateTransformer (inside GCodeCore for the context managers); the current, "
